@@ -14,10 +14,14 @@ import SoyVerif.Ops.Value
 import SoyVerif.Ops.Msg
 import SoyVerif.Ops.JsGen
 import SoyVerif.Ops.Lexer
+import SoyVerif.Ops.FileParser
+import SoyVerif.Ops.Eval
+import SoyVerif.Ops.EvalSpec
 
 open SoyVerif SoyVerif.Ops
 
 def allOps : List Op :=
+  Ops.FileParser.ops ++   -- first: its `leak` handles mode `file` and delegates mode `expr`
   Ops.RawText.ops ++
   Ops.Ast.ops ++
   Ops.Parser.ops ++
@@ -27,7 +31,9 @@ def allOps : List Op :=
   Ops.Value.ops ++
   Ops.Msg.ops ++
   Ops.JsGen.ops ++
-  Ops.Lexer.ops
+  Ops.Lexer.ops ++
+  Ops.Eval.ops ++
+  Ops.EvalSpec.ops
 
 def handle (op : String) (f : List String) : String :=
   match allOps.find? (·.1 == op) with
